@@ -4,7 +4,7 @@ from . import tlc
 
 LEAVES = {"x": ["v", "x"], "y": ["v", "y"], "sz": ["v", "<state>z"], "pw": ["v", "<p>w"],
           "c0": ["c", 0], "c1": ["c", 1], "c2": ["c", 2], "cm1": ["c", -1], "p": ["v", "p"], "q": ["v", "q"]}
-ARITY = {"sum2": 2, "sum3": 3, "prod2": 2, "neg": 1, "pow2": 1, "powc": 1, "quot": 2, "callf": 1, "callfk": 2,
+ARITY = {"sum2": 2, "sum3": 3, "prod2": 2, "prod3": 3, "neg": 1, "pow2": 1, "powc": 1, "quot": 2, "callf": 1, "callfk": 2,
          "callg": 2, "sub": 1, "min2": 2, "max2": 2, "if": 3, "lt": 2, "eq": 2, "ne": 2, "ge": 2, "and2": 2,
          "or2": 2, "not": 1}
 
@@ -20,7 +20,7 @@ def build(toks):
         k = [node() for _ in range(ARITY[t])]
         if t in ("sum2", "sum3"):
             return ["sum", k]
-        if t == "prod2":
+        if t in ("prod2", "prod3"):
             return ["prod", k]
         if t == "neg":
             return ["prod", [["c", -1], k[0]]]
@@ -65,6 +65,7 @@ SETS = {
     "small": ["x", "y", "sz", "c1", "c2", "cm1", "sum2", "prod2", "neg", "pow2", "callf", "callfk", "sub", "if", "lt",
               "and2", "not"],
     "arith": ALL_LEAVES + ["sum2", "sum3", "prod2", "neg", "pow2", "powc", "quot", "callf", "callfk", "callg", "sub"],
+    "regroup": ["x", "y", "sum2", "sum3", "prod2", "prod3"],
     "template": ["p", "q", "x", "c1", "c2", "sum2", "sum3", "prod2", "neg", "callf", "callfk", "callg"],
     "arith-small": ["x", "y", "sz", "c1", "c2", "cm1", "sum2", "sum3", "prod2", "neg", "pow2", "callf", "callfk", "callg"],
 }
